@@ -85,6 +85,25 @@ func c07Setup() {
 
 func c07Doc(seed int) map[string]interface{} {
 	r := NewRng(uint64(seed) + 7777)
+	if seed >= 100 {
+		// only the base context: the credential can say nothing beyond the ids (every other member is undefined)
+		vc := jm{
+			"@context":     []interface{}{"https://www.w3.org/2018/credentials/v1"},
+			"id":           fmt.Sprintf("http://example.edu/credentials/%d", seed),
+			"type":         []interface{}{"VerifiableCredential"},
+			"issuer":       "did:example:issuer",
+			"issuanceDate": "2020-01-01T19:23:24Z",
+		}
+		if r.Bool() {
+			vc["issuer"] = jm{"id": "did:example:issuer"}
+		}
+		if r.Bool() {
+			vc["credentialSubject"] = []interface{}{jm{"id": "did:example:s1"}, jm{"id": "did:example:s2"}}
+		} else {
+			vc["credentialSubject"] = jm{"id": "did:example:s1"}
+		}
+		return vc
+	}
 	person := func(depth int) map[string]interface{} {
 		p := jm{"name": r.Pick([]string{"Alice", "Bob", "Carol"})}
 		if r.Bool() {
@@ -270,6 +289,18 @@ func c07Mutate(doc map[string]interface{}, mut string) bool {
 				return false
 			}
 			a[1].(map[string]interface{})[key] = val
+		case "subj2":
+			a, ok := doc["credentialSubject"].([]interface{})
+			if !ok || len(a) < 2 {
+				return false
+			}
+			a[1].(map[string]interface{})[key] = val
+		case "issuer":
+			is, ok := doc["issuer"].(map[string]interface{})
+			if !ok {
+				return false
+			}
+			is[key] = val
 		case "elem1":
 			a, ok := sub["knows"].([]interface{})
 			if !ok || len(a) != 1 {
@@ -517,7 +548,16 @@ func c07Gen(r *Rng, tier string) []string {
 		default:
 			mut = "sig"
 		}
-		out = append(out, fmt.Sprintf("%s|%s|%d|%s", s, repr, r.N(60), mut))
+		seed := r.N(60)
+		if r.N(5) == 0 { // a credential with the base context only (suites whose terms the base context defines)
+			seed = 100 + r.N(20)
+			s = r.Pick([]string{"ed2018", "ed2018", "k256"})
+			repr = r.Pick([]string{"pv", "jws"})
+			if r.N(3) != 0 {
+				mut = r.Pick([]string{"addundef", "addundef", "adddef"}) + ":" + r.Pick([]string{"subject", "subj2", "issuer", "top"})
+			}
+		}
+		out = append(out, fmt.Sprintf("%s|%s|%d|%s", s, repr, seed, mut))
 	}
 	return out
 }
